@@ -52,7 +52,7 @@ def _ncases(tier):
 
 PLAN = {
     "quick": {"cases": _ncases("quick"), "hashseeds": 3, "shards": 5, "timeout": 600, "min_nontrivial": 2000},
-    "thorough": {"cases": _ncases("thorough"), "hashseeds": 8, "shards": 2, "timeout": 3400,
+    "thorough": {"cases": _ncases("thorough"), "hashseeds": 8, "shards": 2, "timeout": 5000,
                  "min_nontrivial": int(_ncases("thorough") * 0.8)},
 }
 RULE = ("(a) EXHAUSTIVE: every labelled DAG on 1-4 nodes (572, each under 2-3 labelings / variable orders; thorough also "
